@@ -234,9 +234,20 @@ func compareToModelEnv(e *Env, mt *MTable, q *QResult, stage string) *Violation 
 			if !fd.E.Modelled() {
 				continue
 			}
-			fv := EvalField(t, fd.E, mr.Pts)
+			fpts := mr.PtsSince(fd.Since)
+			fv := EvalField(t, fd.E, fpts)
 			if fv.Undef {
 				continue
+			}
+			if len(fpts) == 0 {
+				// the field did not exist yet when the row's points were
+				// processed: nothing is stored for it (a constant operand makes the
+				// reported value depend on whether an empty slot happens to exist:
+				// the recorded finding C01-gap-row-const, not compared)
+				if hasConstBin(t, fd.E) {
+					continue
+				}
+				fv = FV{}
 			}
 			want := 0.0
 			if fv.Found {
